@@ -711,7 +711,33 @@ def _venc(cols):
     return "|".join(xvec(np.asarray(c, float).flatten()) for c in cols)
 
 
+# ops whose Lean line could not be built because the code under test handed back arrays of an unexpected shape / type
+# (lean_op reads the valid cases through the real Data.get_scores): op -> "<Type>: <message>".  This is a failure of the
+# implementation, not of the harness: judge reports it (kind malformed-reply), cmp does not compare such an op.
+_MALFORMED = {}
+
+
 def lean_op(op):
+    try:
+        line = _lean_op(op)
+        _MALFORMED.pop(op, None)
+        return line
+    except Exception as e:
+        _MALFORMED[op] = "%s: %s" % (type(e).__name__, e)
+        a = op.split(" ")
+        return "%s %s unmodelled" % ("view" if c16v.is_view(op) else "diag", a[1] if len(a) > 1 else "-")
+
+
+def _malformed_verdict(op):
+    a = op.split(" ")
+    name = a[1] if len(a) > 1 and a[0] != "diagseq" else a[0]
+    return ({"diagram": name, "kind": "malformed-reply"},
+            "%s %s: the arrays that the code under test returns for this input (Data.get_scores / get_axis_size, read "
+            "to build the model's input) do not have the documented shape: %s" %
+            (name, a[2] if len(a) > 2 else "", _MALFORMED[op]))
+
+
+def _lean_op(op):
     if c16v.is_view(op):
         return c16v.lean_op(op)
     if c16w.is_w(op):
@@ -720,7 +746,7 @@ def lean_op(op):
     if a[0] in ("bin", "fillpoly"):
         return op
     if a[0] == "diagseq":       # the model is a pure function of the dataset: each diagram as if it were alone
-        return "diagseq " + " // ".join(lean_op(sop) for sop in seq_items(op)[1])
+        return "diagseq " + " // ".join(_lean_op(sop) for sop in seq_items(op)[1])
     import warnings
     import verif.field as vf
     import verif.axis
@@ -869,6 +895,8 @@ def _vec_close(u, v, rtol=1e-9, atol=1e-9):
 
 
 def cmp(op, impl_out, model_out):
+    if op in _MALFORMED:
+        return True             # no model line could be built from the implementation's arrays: the oracle reports it
     if c16v.is_view(op):
         return c16v.cmp(op, impl_out, model_out)
     if c16w.is_w(op):
@@ -914,6 +942,8 @@ def _fmt(v):
 
 
 def judge(op, impl_out, spec_out):
+    if op in _MALFORMED:
+        return _malformed_verdict(op)
     if c16v.is_view(op):
         return c16v.judge(op, impl_out, spec_out)
     if c16w.is_w(op):
